@@ -10,12 +10,22 @@ set to the dyadic values and torch.randn_like returning the pattern: every HDF5 
 exact rationals, and exactly two draws per step are consumed.  Through the public constructor:
 damp = inf reproduces the NVE output bit for bit; Temp = 0 never increases the kinetic energy across
 an O operator; padding rows of /velocities stay exactly zero.
-Not decided: fluctuation-dissipation identity / canonical sampling (exp, sqrt, statistics)."""
+
+Fluctuation-dissipation: TLC checks Thermostat (life cycle of the coefficients on a driver object that is
+reconfigured and re-run: CoeffCurrent; the "cached under a key without Temp / masses" deviation is refuted)
+and then evaluates its identities on the whole-step velocity map v' = a v + SUM g_k xi_k MEASURED per atom on
+the real engines through run() (zero-force stub, selector patterns for torch.randn_like; Langevin, damped
+XL-BOMD, damped KSA, surface hopping with damping): SUM g_k^2 = (kT/m)(1 - a^2) to 3e-6 over dt/damp from 1e-4
+to 10, all masses of the batches incl. padding rows, temperatures incl. 0 K (no noise, 0 < a <= 1), damp = inf
+(a = 1, no noise), on driver objects whose Temp / damp / batch change between runs.
+Not decided: long-run sampling statistics."""
 
 import os
 
-from drivers import mdlib
-from harness import common
+import json
+
+from drivers import mdlib, thermo_driver
+from harness import common, tlc
 
 from . import vvshared as VS
 
@@ -74,6 +84,38 @@ def public_limits(case):
         pad = max(pad, float(mol.velocities[1, 2].abs().max()))
     out["padding_motion"] = pad
     return out
+
+
+def thermo_jobs(tier, rng, scratch):
+    """Driver objects (engine, dt) x sequences of (batch, Temp, damp) they are run with, one after the other."""
+    inf = float("inf")
+    systems = ["h2o_h2", "nh3_h2o", "three", "h2co_2"]
+    ratios = [1.0e-4, 1.0e-2, 0.05, 0.5, 1.0, 2.0, 4.0, 10.0]
+    jobs = []
+    engines = [("langevin", {}), ("xl", {}), ("ksa", {}), ("fssh", {"excited_states": {"n_states": 2, "method": "cis"}})]
+    for eng, params in engines:
+        for dt in (0.05, 0.4, 1.0):
+            for rep_ in range(2 if tier == "quick" else 8):
+                seq = []
+                for n in range(4 if eng != "fssh" else 2):
+                    kind = rng.choice(["ratio", "ratio", "ratio", "zero", "inf"]) if n else "ratio"
+                    c = dict(system=rng.choice(systems) if eng != "fssh" else rng.choice(["h2co_2", "h2co"]), temp=float(rng.choice([50, 300, 2000])), damp=dt / rng.choice(ratios))
+                    if kind == "zero":
+                        c["temp"] = 0.0
+                    if kind == "inf":
+                        c["damp"] = inf
+                    seq.append(c)
+                # the reuse patterns a cache keyed without Temp / masses gets wrong: same shape, other Temp; same shape, rows swapped
+                seq.append(dict(seq[0], temp=0.0))
+                seq.append(dict(seq[0], temp=777.0))
+                if eng != "fssh":
+                    seq.append(dict(system="h2o_h2", temp=300.0, damp=seq[0]["damp"]))
+                    seq.append(dict(system="h2_h2o", temp=300.0, damp=seq[0]["damp"]))
+                jobs.append(dict(engine=eng, dt=dt, seq=seq, params=params))
+    for n, j in enumerate(jobs):
+        j["id"] = "t%03d" % n
+        j["workdir"] = os.path.join(scratch, "thermo_%03d" % n)
+    return jobs
 
 
 def main(tier):
@@ -138,14 +180,57 @@ def main(tier):
                 rep.violation("zero_temperature_thermostat_adds_energy", lim)
             if lim["padding_motion"] != 0.0:
                 rep.violation("padding_atom_moved_by_thermostat", lim)
+        # ---- fluctuation-dissipation on the measured step map -----------------------------------------
+        r = tlc.run("Thermostat", dict(spec="Spec", constants=dict(CacheMode="none"), invariants=["CoeffCurrent"]), scratch=scratch)
+        states += r.distinct
+        trans += r.generated
+        if not r.ok:
+            rep.machinery("TLC Thermostat: " + str(r.violated or r.error)[:300])
+        rm = tlc.run("Thermostat", dict(spec="Spec", constants=dict(CacheMode="keyed"), invariants=["CoeffCurrent"]), scratch=scratch)
+        if not rm.violated:
+            rep.machinery("vacuity: cached-coefficient deviation not refuted")
+        tj = thermo_jobs(tier, rng, scratch)
+        tres = common.run_forked(tj, thermo_driver.run_job, timeout=900)
+        trecs, tby = [], {}
+        for j, rr in zip(tj, tres):
+            if not rr.get("ok"):
+                rep.violation("thermostat_probe_failed", {"job": {k: v for k, v in j.items() if k != "workdir"}, "error": rr.get("error"), "tb": str(rr.get("tb"))[-300:]}, engine=j["engine"])
+                continue
+            for rec in rr["result"]:
+                trecs.append(rec)
+                tby[rec["id"]] = (j, rec)
+        tpath = os.path.join(scratch, "thermo.ndjson")
+        tlc.write_ndjson(tpath, trecs)
+        tt = tlc.run("ThermostatTrace", dict(spec="TSpec", constants=dict(CacheMode="none"), postcondition="Post"), workers=1, env={"TRACE_FILE": tpath}, scratch=scratch, timeout=1800)
+        if tt.error:
+            rep.machinery("ThermostatTrace: " + tt.error[:600])
+        t_ok = t_seen = 0
+        worst_fdt = 0
+        for ln in tt.stdout.splitlines():
+            if ln.startswith('"{'):
+                v = json.loads(json.loads(ln))
+                t_seen += 1
+                j, rec = tby[v["id"]]
+                if rec["ratio9"] > 0:
+                    worst_fdt = max(worst_fdt, abs(rec["ratio9"] - 1000000000))
+                if v["why"] == "-":
+                    t_ok += 1
+                else:
+                    rep.violation("thermostat_map_violates_identity", {"job": {k: x for k, x in j.items() if k != "workdir"}, "record": rec, "identity": v["why"]},
+                                  identity=v["why"], engine=j["engine"], run=rec["run"], reused=rec["run"] > 0)
+        if t_seen != len(trecs):
+            rep.machinery(f"thermostat verdicts for {t_seen} of {len(trecs)} records")
+        states += tt.distinct
+        trans += tt.generated
         cov = {
-            "states": states, "transitions": trans, "traces_validated_against_impl": len(results) + len(xl), "behaviours_matching": n_ok,
+            "thermostat_maps_measured": len(trecs), "thermostat_maps_consistent": t_ok, "thermostat_jobs": len(tj), "fdt_worst_abs_dev_1e-9": worst_fdt, "fdt_tolerance_1e-9": 3000,
+            "states": states, "transitions": trans, "traces_validated_against_impl": len(results) + len(xl) + len(trecs), "behaviours_matching": n_ok,
             "samples": samples or [{"note": "none"}], "public_limits": lim, "model_nve_limit_pairs": n_lim,
             "evaluations": len(results) + len(xl), "distinct_nontrivial": len([1 for c, _, _ in results if c["amp"] or c["c1"] == "half"]),
             "rule": "Langevin behaviours (masses x positions x velocities x field x c1 x noise amplitude x noise pattern) enumerated by TLC; non-trivial = c1 = 1/2 or noise on",
             "exhaustive": tier == "thorough", "tolerance": 1e-11,
         }
-        return rep.finish(cov, assumptions=["langevin_c1/c2 are set by the driver to dyadic values after initialize; the formulas for c1, c2 themselves (exp, expm1, sqrt) are not decided",
+        return rep.finish(cov, assumptions=["exact replay: langevin_c1/c2 are set by the driver to dyadic values after initialize", "fluctuation-dissipation: step map measured with zero forces (the map is then affine); kT/m from the driver's own unit literals",
                                             "noise variates replaced by TLC-chosen +-1 patterns"])
     finally:
         common.rm(scratch)
